@@ -218,6 +218,86 @@ def run_rays(ck, r, tier, honor):
         judge(ck, t, o, "jit", honor)
 
 
+def api_rays(ck, r, tier):
+    """The public `raytrace` method with its defaults: homogeneous models with equal spacings (where a ray must
+    always be returned), shifted origins, explicit step sizes from a tenth of a cell to two cells with the DEFAULT
+    step budget, long and short rays, single end points and lists."""
+    q = tier == "quick"
+    tasks = []
+    for _ in range(8 if q else 60):
+        nd = int(r.choice([2, 2, 3]))
+        sh = tuple(int(x) for x in r.integers(6, 22 if nd == 2 else 10, nd))
+        h = float(r.choice([1.0, 0.5, 0.25, 2.0]))
+        d = (h,) * nd
+        o = G.origin(r, nd)
+        ext = [sh[a] * h for a in range(nd)]
+        corner_src = bool(r.integers(0, 2))
+        src = [o[a] + (0.0 if corner_src else float(r.uniform(0.1, 0.9)) * ext[a]) for a in range(nd)]
+        far = [o[a] + (ext[a] - float(r.uniform(0.0, 0.6)) * h) for a in range(nd)]            # about a diagonal away
+        mid = [o[a] + float(r.uniform(0.2, 0.8)) * ext[a] for a in range(nd)]
+        near = [min(max(src[a] + float(r.uniform(-0.4, 0.4)) * h, o[a]), o[a] + ext[a]) for a in range(nd)]
+        kw = {"honor_grid": False}
+        f = float(r.choice([0.1, 0.25, 0.5, 1.0, 1.0, 2.0]))
+        if r.integers(0, 5) != 0:
+            kw["stepsize"] = f * h
+        pts = [far, mid, near, list(src)]
+        form = str(r.choice(["list", "single"]))
+        tasks.append({"op": "api_solve", "grid": np.full(sh, float(r.choice([1.0, 2.5]))), "gridsize": d, "origin": o,
+                      "sources": src, "nsweep": 3, "grad": True, "ray_points": pts if form == "list" else far, "ray_kw": kw,
+                      "timeout": 60.0, "meta": {"nd": nd, "shape": sh, "h": h, "origin": o, "src": src, "kw": kw,
+                                                "form": form, "pts": pts if form == "list" else [far]}})
+    # corpus: recorded reproducer of known finding C10-small-step-never-arrives
+    csrc = [3.017395076961919, 5.278204123440152, 4.204494524676641]
+    cend = [7.8, 8.9, 7.7]
+    tasks.insert(0, {"op": "api_solve", "grid": np.ones((8, 9, 8)), "gridsize": (1.0, 1.0, 1.0), "origin": (0.0, 0.0, 0.0),
+                     "sources": csrc, "nsweep": 3, "grad": True, "ray_points": cend, "ray_kw": {"honor_grid": False, "stepsize": 0.1},
+                     "timeout": 60.0, "meta": {"nd": 3, "shape": (8, 9, 8), "h": 1.0, "origin": (0.0, 0.0, 0.0), "src": csrc,
+                                               "kw": {"honor_grid": False, "stepsize": 0.1}, "form": "single", "pts": [cend]}})
+    for mode in ("interp", "jit"):
+        res = C.run_impl(tasks, mode, timeout=3000)
+        for t, o in zip(tasks, res):
+            m = t["meta"]
+            ck.count(1, sig=("api", mode, m["nd"], m["kw"].get("stepsize", 0) / m["h"], m["form"], o["status"]))
+            pl = {"mode": mode, "level": "api", "case": {k: (np.asarray(v).tolist() if isinstance(v, np.ndarray) else v)
+                                                          for k, v in t.items() if k != "meta"}, "meta": m}
+            if o["status"] != "ok":
+                ck.violation(f"Eikonal.solve / raytrace raised {o['status']} for a valid request", pl)
+                continue
+            rr = o["rays"][0]
+            if isinstance(rr, str):
+                # is it the budget (the ray progresses but runs out of vertices) or does the ray never arrive?
+                big = dict(t, ray_kw=dict(t["ray_kw"], max_step=100000), timeout=120.0)
+                o2 = C.run_impl([big], mode, timeout=600)[0]
+                arrives = o2["status"] == "ok" and not isinstance(o2["rays"][0], str)
+                ratio = m["kw"].get("stepsize", m["h"]) / m["h"]
+                if arrives:
+                    ck.violation(f"raytrace raised {rr[4:]} in a homogeneous medium with equal spacings although the ray reaches "
+                                 f"the source: the default step budget is too small", dict(pl, arrives_with_larger_budget=True,
+                                                                                            step_ratio=ratio))
+                else:
+                    ck.violation(f"raytrace raised {rr[4:]} in a homogeneous medium with equal spacings: the ray never comes "
+                                 f"within one step of the source", dict(pl, arrives_with_larger_budget=False, step_ratio=ratio))
+                continue
+            rays = rr if isinstance(rr, list) else [rr]
+            step = m["kw"].get("stepsize", m["h"])
+            lo = np.array(m["origin"])
+            hi = lo + np.array(m["shape"]) * m["h"]
+            for ray, end in zip(rays, m["pts"]):
+                ray = np.asarray(ray)
+                why = None
+                if not (np.array_equal(ray[0], np.array(m["src"])) and np.array_equal(ray[-1], np.array(end))):
+                    why = "polyline does not start exactly at the source / end exactly at the end point"
+                elif (ray < lo - 1e-9 * (1 + np.abs(lo).max())).any() or (ray > hi + 1e-9 * (1 + np.abs(hi).max())).any():
+                    why = "ray vertex outside the grid"
+                elif len(ray) > 1 and (np.linalg.norm(np.diff(ray, axis=0), axis=1) > step * (1 + 1e-9) + 1e-12).any():
+                    why = "consecutive vertices more than one step apart"
+                elif max(seg_dist(p, ray[0], ray[-1]) for p in ray) > 1.5 * m["h"] + 1e-9:
+                    why = "ray strays more than a cell and a half from the straight segment in a homogeneous medium"
+                if why:
+                    ck.violation(why, pl)
+                    break
+
+
 def run(tier):
     ck = Check("C10", tier)
     ck.rule = ("free-step rays on homogeneous/smooth/layered 2D and 3D models x source classes x end points {cell interior, "
@@ -226,6 +306,7 @@ def run(tier):
     r = G.rng_for(C.seed(), "C10")
     ck.lean(["FteikVerif.Props.C10"], THEOREMS)
     run_rays(ck, r, tier, honor=False)
+    api_rays(ck, r, tier)
     ck.proved = ["the free-step loop terminates for every gradient field (fuel max_step+1 is never exhausted): each iteration "
                  "stores one vertex and the budget test bounds the stored rows", "a returned polyline starts exactly at the "
                  "source, ends exactly at the end point, has between 2 and max_step+1 vertices (both modes)",
